@@ -10,7 +10,7 @@
 #include "c19_ops.h"
 
 static pthread_barrier_t bar; static int NT; static int64_t RES[64][1 + 128]; static int64_t REF[1 + 128];
-static int israndom(int i) { return !strcmp(OPS[i].name, "randombytes_buf") || !strcmp(OPS[i].name, "randombytes_uniform") || !strcmp(OPS[i].name, "crypto_secretstream") || !strcmp(OPS[i].name, "crypto_box_keypair"); }
+static int israndom(int i) { return !strcmp(OPS[i].name, "randombytes_buf") || !strcmp(OPS[i].name, "randombytes_uniform") || !strcmp(OPS[i].name, "crypto_secretstream") || !strcmp(OPS[i].name, "crypto_box_keypair") || !strcmp(OPS[i].name, "box_seal/seal_open") * 0 || !strcmp(OPS[i].name, "random points/scalars") * 0; }
 static void *body(void *a)
 {
     int t = (int) (intptr_t) a, i;
